@@ -574,6 +574,9 @@ func c05Singles(s *c05Setup, thorough bool) []c05Fault {
 }
 
 func c05Run(c *fw.Ctx) {
+	{
+		interfRun(c, "C05") // statement-level interleavings of operations on disjoint objects (subprocess)
+	}
 	type shape struct {
 		lens  []int
 		prior int
